@@ -17,13 +17,16 @@ TAGS = {"C15"}
 def pmap_configs(tier: str) -> list[dict]:
     c = []
     if tier == "thorough":
+        for T in range(1, 7):
+            for n in range(0, 9):
+                big = (n + 1)**min(T, n + 1) > 40000
+                c.append(dict(n=n, T=T, bound=3) if big else dict(n=n, T=T))
         for T in range(1, 6):
-            for n in range(0, 8):
-                c.append(dict(n=n, T=T))
-        for T in range(1, 5):
-            for n in range(1, 7):
+            for n in range(1, 8):
                 for d in range(0, n + 1):
-                    c.append(dict(n=n, T=T, d=d))
+                    big = (n + 1)**min(T, n + 1) > 5000
+                    c.append(dict(n=n, T=T, d=d, **({"bound": 2} if big
+                                                    else {})))
         return c
     for T in range(1, 5):
         for n in range(0, 6):
